@@ -152,8 +152,10 @@ pub fn random_message(r: &mut Rng, max_opts: usize, max_val: usize, max_pay: usi
         // the parser carries over from one value to the next shows only here)
         if r.chance(1, 3) {
             for _ in 0..r.range(1, 3) {
+                // (bounded by the caller's value size: every prefix and corruption of these messages is
+                // recorded, which is quadratic in their length; the long classes are in the hand-encoded family)
                 let vl = *r.pick(&[0usize, 1, 12, 13, 14, 20, 30, 255, 268, 269, 270, 300]);
-                p.add_option(CoapOption::from(num), r.bytes(vl));
+                p.add_option(CoapOption::from(num), r.bytes(vl.min(max_val * 4 + 16)));
             }
         }
     }
@@ -171,7 +173,7 @@ pub fn rec_wire_bytes(args: &Args) {
     let mut forwarded: u64 = 0;
 
     // (a) well-formed messages, every prefix, single-byte corruptions
-    let nmsg = if thorough { 400 } else { 60 };
+    let nmsg = if thorough { 200 } else { 60 };
     for _ in 0..nmsg {
         let p = random_message(&mut r, 5, 20, 12);
         if let Ok(b) = p.to_bytes_unlimited() {
@@ -204,7 +206,7 @@ pub fn rec_wire_bytes(args: &Args) {
             }
         }
     }
-    for _ in 0..(if thorough { 3000 } else { 300 }) {
+    for _ in 0..(if thorough { 1000 } else { 300 }) {
         let mut b = r.pick(&HEADERS[..4]).to_vec();
         let mut total: u32 = 0;
         for g in 0..r.range(1, 2) {
@@ -340,7 +342,7 @@ pub fn rec_wire_bytes(args: &Args) {
                     let mut c = b.clone();
                     c.extend([0xE0, 0xFE, 0xF2]);
                     ev_from_bytes(&mut out, &c);
-                } else if thorough || (de.len() + le.len() <= 4 && hb % 16 == 14 && (dn == 0 || dn == 13)) {
+                } else if de.len() + le.len() <= 4 && hb % 16 == 14 && (dn == 0 || dn == 13) {
                     b.extend((0..vlen).map(|i| (i * 7 + 1) as u8));
                     ev_from_bytes(&mut out, &b);
                     ev_from_bytes(&mut out, &b[..b.len() - 1]);
